@@ -43,17 +43,17 @@ def parseRelMapFile (data : Bytes) : M (Option RelMapFile) := do
   let crc ← (if data.length ≥ 504 + 4 then uN 4 data 504 else pure 0 : M Nat)
   return some { magic, numMappings, mappings, crc }
 
-/-- GetFilenode -/
-def getFilenode (ms : List RelMapping) (oid : Nat) : Nat :=
+/-- (rm *RelMapFile) GetFilenode -/
+def relMapGetFilenode (ms : List RelMapping) (oid : Nat) : Nat :=
   match ms with
   | [] => 0
-  | m :: rest => if m.oid = oid then m.filenode else getFilenode rest oid
+  | m :: rest => if m.oid = oid then m.filenode else relMapGetFilenode rest oid
 
-/-- GetOID -/
-def getOID (ms : List RelMapping) (filenode : Nat) : Nat :=
+/-- (rm *RelMapFile) GetOID (catalog.go has an unrelated getOID) -/
+def relMapGetOID (ms : List RelMapping) (filenode : Nat) : Nat :=
   match ms with
   | [] => 0
-  | m :: rest => if m.filenode = filenode then m.oid else getOID rest filenode
+  | m :: rest => if m.filenode = filenode then m.oid else relMapGetOID rest filenode
 
 /-- GetCatalogName over the table `names` (SystemCatalogNames) -/
 def getCatalogName (names : List (Nat × String)) (oid : Nat) : String :=
